@@ -32,7 +32,27 @@ CACHE_DIR = os.path.join(ROOT, '.cache')
 OUT_ROOT = ROOT if REPO == '/repo' else os.path.join(tempfile.gettempdir(), 'qv_alt_out')
 JOBS = int(os.environ.get('QV_JOBS', '16'))
 import threading
-_SLOTS = threading.Semaphore(JOBS)      # a group of weight w (memory-hungry queries) occupies w of the JOBS slots
+
+
+class _Slots:
+    """JOBS slots; a group of weight w (memory-hungry query) takes w of them ATOMICALLY (taking them one by one deadlocks)"""
+    def __init__(self, n):
+        self.free = n
+        self.cv = threading.Condition()
+
+    def acquire(self, w):
+        with self.cv:
+            while self.free < w:
+                self.cv.wait()
+            self.free -= w
+
+    def release(self, w):
+        with self.cv:
+            self.free += w
+            self.cv.notify_all()
+
+
+_SLOTS = _Slots(JOBS)
 
 STD_INCLUDES = ['-I' + os.path.join(ROOT, 'include'), '-I' + os.path.join(ROOT, 'harness'),
                 '-I' + os.path.join(ROOT, 'contracts'), '-I' + os.path.join(ROOT, 'stubs')]
@@ -321,13 +341,11 @@ def classify(g, results):
 def run_group(g, repo=REPO, use_cache=True):
     """returns dict(name, status in {ok, failed, undecided}, obligations[], seconds, ...)"""
     w = max(1, min(JOBS, int(g.get('weight', 1))))
-    for _ in range(w):
-        _SLOTS.acquire()
+    _SLOTS.acquire(w)
     try:
         return _run_group(g, repo, use_cache)
     finally:
-        for _ in range(w):
-            _SLOTS.release()
+        _SLOTS.release(w)
 
 
 def _run_group(g, repo=REPO, use_cache=True):
